@@ -868,7 +868,7 @@ impl CommandExecutor for DrawExecutor {
                     return Err(anyhow::anyhow!("PolyFill requires minimun 1 arguments"));
                 }
                 let points: i32 = parameters[0];
-                if points * 2 + 1 != parameters.len() as i32 {
+                if points < 1 || points * 2 + 1 != parameters.len() as i32 {
                     return Err(anyhow::anyhow!("PolyFill requires {} arguments was {} ", points * 2 + 1, parameters.len()));
                 }
                 self.fill_poly(&parameters[1..]);
@@ -883,7 +883,7 @@ impl CommandExecutor for DrawExecutor {
                     return Err(anyhow::anyhow!("PolyLine requires minimun 1 arguments"));
                 }
                 let points: i32 = parameters[0];
-                if points * 2 + 1 != parameters.len() as i32 {
+                if points < 1 || points * 2 + 1 != parameters.len() as i32 {
                     return Err(anyhow::anyhow!("PolyLine requires {} arguments was {} ", points * 2 + 1, parameters.len()));
                 }
                 self.draw_polyline(&parameters[1..]);
